@@ -92,6 +92,18 @@ def chain_rules(rep, prog):
         ok = li["iter"] == MECt and len(apps) == 1 and apps[0].args == [me] and \
             len(apps[0].path) >= 1 and apps[0].path[-1][1] is True and keeps(apps[0].path[-1][0], me)
         why = "kept under %s" % (fmt(apps[0].path[-1][0])[:100] if apps and apps[0].path else None)
+        if not apps and li["iter"] == ("ext", "enumerate", (MECt,), ()):
+            # mask form: keep = zeros(len(MEC), bool); for k, me in enumerate(MEC): keep[k] = <columns equal>; return MEC[keep]
+            sts = [s_ for s_ in S.select("store", qname=q) if lid in s_.loops]
+            rets = S.select("return", qname=q)
+            if len(sts) == 1 and len(rets) == 1 and len(li["init"]) == 1:
+                nm_ = list(li["init"])[0]
+                ini = li["init"][nm_]
+                st_ = sts[0]
+                flags = ini[0] == "ext" and ini[1] == "numpy.zeros" and ini[2][:1] == (("ext", "len", (MECt,), ()),) and dict(ini[3]).get("dtype") == ("extref", "bool")
+                ok = flags and st_.base == ("mu", lid, nm_) and st_.idx == ("idx", MECt) and st_.aug is None and tuple(st_.path) == tuple(rets[0].path) and \
+                    keeps(st_.value, ("elem", MECt)) and rets[0].value == ("sub", MECt, ("after", lid, nm_))
+                why = "mask form: keep[k] = %s, result %s" % (fmt(st_.value)[:60], fmt(rets[0].value)[:60])
     elif not loops:
         # np.array([me for me in MEC if <columns equal>])
         for r in S.select("return", qname=q):
